@@ -56,7 +56,7 @@ theorem requireEof_legacy (s : IState) (h : s.isEof = false) :
 
 /-- the instructions that exist only in EOF code -/
 def IsEofOnly : Instr → Prop
-  | .eofOnly | .rjump | .rjumpi | .rjumpv | .callf | .retf | .jumpf | .dupn | .swapn | .exchange
+  | .eofcreate | .extcall | .extdelegatecall | .extstaticcall | .rjump | .rjumpi | .rjumpv | .callf | .retf | .jumpf | .dupn | .swapn | .exchange
   | .dataload | .dataloadn | .datasize | .datacopy | .returndataload => True
   | _ => False
 
@@ -85,7 +85,10 @@ theorem step_eofOnly (s : IState) (op : Nat) (hcode : s.code[s.pc]? = some op) (
          | (unfold datasizeI; rw [bind_halt _ _ _ _ _ _ hr]; rfl)
          | (unfold datacopyI; rw [bind_halt _ _ _ _ _ _ hr]; rfl)
          | (unfold returndataloadI; rw [bind_halt _ _ _ _ _ _ hr]; rfl)
-         | (rw [bind_halt _ _ _ _ _ _ hr]; rfl))
+         | (unfold eofcreateI eofcreatePre hostCallAction; rw [bind_halt _ _ _ _ _ _ hr]; rfl)
+         | (unfold extcallI hostCallOptAction; rw [bind_halt _ _ _ _ _ _ hr]; rfl)
+         | (unfold extdelegatecallI hostCallOptAction; rw [bind_halt _ _ _ _ _ _ hr]; rfl)
+         | (unfold extstaticcallI hostCallOptAction; rw [bind_halt _ _ _ _ _ _ hr]; rfl))
 
 theorem step_returnContract (s : IState) (hcode : s.code[s.pc]? = some 0xee) (hl : Legacy s) :
     step s = .pure (returnContractRule s) := by
@@ -93,7 +96,12 @@ theorem step_returnContract (s : IState) (hcode : s.code[s.pc]? = some 0xee) (hl
   rw [hcode]
   have hdec : decode 0xee = .returnContract := rfl
   simp only [hdec, execInstr, execPure]
-  have h2 : s.isEofInit = false := hl.2
-  simp [h2, Exec.toDone, returnContractRule, adv]
+  have h2 : (adv s).isEofInit = false := hl.2
+  have hr : requireInitEof (adv s) = .halt .ReturnContractInNotInitEOF [] (adv s) := by
+    simp [requireInitEof, h2]
+  show Outcome.pure (returnContractI (adv s)).toDone = _
+  unfold returnContractI
+  rw [bind_halt _ _ _ _ _ _ hr]
+  rfl
 
 end Revm.Proofs.EvmStep2
